@@ -107,8 +107,72 @@ class ConvertTask(FragmentTask):
             ctx.oblige(f"post.level-header-file-of-box-{c}", names[c] == want, "P", note=f"{names[c]} vs {want}")
 
 
+class ChkGeometry(FragmentTask):
+    """The statements of CheckpointReader.__init__ that derive the per-level geometry (real code; skeleton: three levels, two
+    level-0 boxes with symbolic index ranges, symbolic domain): the grid of level lv has 2**lv times the level-0 extent in every
+    direction (one array PER level - a later level does not rewrite an earlier one) and the cell size of level lv is the domain
+    length divided by that level's own extent."""
+    prop = "C17"
+    reach = "S"
+    qual = "amr_kitchen.chk2plt.checkpoint_reader.CheckpointReader.__init__"
+    first = staticmethod(FragmentTask.assigns("grid_sizes"))
+    last = staticmethod(FragmentTask.assigns("dx"))
+
+    def __init__(self):
+        self.name = "CheckpointReader.__init__.level-geometry"
+
+    def select(self, fdef):
+        """everything between the block that parses the checkpoint Header (the last top-level `with`) and the statement that
+        defines the cell sizes - however many temporaries the grid sizes are computed with"""
+        body = fdef.body
+        withs = [i for i, st in enumerate(body) if isinstance(st, ast.With)]
+        ends = [i for i, st in enumerate(body) if self.last(st)]
+        if not withs or not ends or ends[-1] <= withs[-1]:
+            return None
+        return body[withs[-1] + 1:ends[-1] + 1]
+
+    def setup(self, ex):
+        ctx = ex.ctx
+        HI = z3.Function("BHI", I, I, I)
+        LO = z3.Function("BLO", I, I, I)
+        ind = NDArray([2, 2, 3], lambda ix: z3.If(to_z3(ix[1]) == 0, LO(to_z3(ix[0]), to_z3(ix[2])), HI(to_z3(ix[0]), to_z3(ix[2]))), "int")
+        for b in range(2):
+            for d in range(3):
+                ctx.assume(z3.And(LO(b, d) >= 0, HI(b, d) >= LO(b, d)))
+        glo = [z3.Real(f"glo{d}") for d in range(3)]
+        ghi = [z3.Real(f"ghi{d}") for d in range(3)]
+        for d in range(3):
+            ctx.assume(ghi[d] > glo[d])
+        boxes = [{"indices": ind}, {"indices": NDArray([1, 2, 3], lambda ix: z3.IntVal(0), "int")},
+                 {"indices": NDArray([1, 2, 3], lambda ix: z3.IntVal(0), "int")}]
+        self_ = Record("amr_kitchen.chk2plt.checkpoint_reader.CheckpointReader", boxes=boxes, max_level=2,
+                       geo_lo=Vec(list(glo), "array"), geo_hi=Vec(list(ghi), "array"))
+        return {"frame": {"self": self_}, "self_": self_, "HI": HI, "glo": glo, "ghi": ghi}
+
+    def post(self, ex, inp, out):
+        ctx = ex.ctx
+        ctx.oblige("raises-nothing", out.kind == "ret", "P", note=str(out.exc) if out.kind != "ret" else "")
+        if out.kind != "ret":
+            return
+        a = inp["self_"].attrs
+        gs, dx = a.get("grid_sizes"), a.get("dx")
+        from pyvc.ops import as_ndarray
+        ok = isinstance(gs, list) and len(gs) == 3 and dx is not None
+        ctx.structure("post.one-grid-size-per-level-and-a-cell-size-table", ok)
+        HI = inp["HI"]
+        g0 = [z3.If(HI(0, d) >= HI(1, d), HI(0, d), HI(1, d)) + 1 for d in range(3)]
+        ctx.ghost["minmax_semantics"] = True
+        dxa = as_ndarray(dx)
+        for lv in range(3):
+            g = as_ndarray(gs[lv])
+            for d in range(3):
+                ctx.oblige(f"post.grid-of-level-{lv}-is-2^{lv}-times-the-level-0-extent[{d}]", veq(ctx, g.elem((d,)), g0[d] * 2 ** lv), "P")
+                ctx.oblige(f"post.cell-size-of-level-{lv}[{d}]",
+                           veq(ctx, dxa.elem((lv, d)), (inp["ghi"][d] - inp["glo"][d]) / z3.ToReal(g0[d] * 2 ** lv)), "P")
+
+
 def parent_tasks(tier):
-    return [ConvertTask("state_D_00000"), ConvertTask("state_D_00001"), ConvertScatter()]
+    return [ConvertTask("state_D_00000"), ConvertTask("state_D_00001"), ConvertScatter(), ChkGeometry()]
 
 
 def parent_canaries():
